@@ -83,6 +83,29 @@ def constructor_call_sites(prop="C04"):
     return out
 
 
+def initial_default(prop="C04"):
+    """FortranContainer.__init__, before the statement loop: the accessibility handed to the declarations of a scope (`child_permission`) starts as the scope's own
+    default, and for a submodule that default is "private" (nothing in a submodule is accessible by use association).  So the statement that makes a submodule private
+    has to come before `child_permission` is computed from `self.permission`."""
+    fn = loader.find_def("ford.sourceform", "FortranContainer.__init__")
+    oid = f"{prop}.S.__init__.submodule_default_reaches_the_declarations"
+    idx_sub = next((i for i, st in enumerate(fn.body) if isinstance(st, ast.If) and "FortranSubmodule" in ast.unparse(st.test)
+                    and any(ast.unparse(b).replace('"', "'") == "self.permission = 'private'" for b in st.body)), None)
+    idx_child = next((i for i, st in enumerate(fn.body) if isinstance(st, ast.Assign) and any(ast.unparse(t) == "child_permission" for t in st.targets)), None)
+    if idx_sub is None or idx_child is None:
+        return [OR(id=oid, status=UNKNOWN, kind="S", target="ford.sourceform.FortranContainer.__init__",
+                   detail=f"submodule statement / child_permission initialisation not found at the top level of __init__ ({idx_sub}, {idx_child})")]
+    init = ast.unparse(fn.body[idx_child].value)
+    ok = idx_sub < idx_child and "self.permission" in init
+    r = OR(id=oid, status=PROVED if ok else REFUTED, kind="S", role="pre", backend="ast", target="ford.sourceform.FortranContainer.__init__",
+           desc=f"`child_permission = {init[:70]}` is computed after a submodule has been made private")
+    if not ok:
+        from bounded import c04
+        r.detail = "child_permission is initialised from the inherited accessibility before the submodule default is applied: variables of a submodule are recorded as public"
+        r.replay = c04.submodule_cases()
+    return [r]
+
+
 # ------------------------------------------------------------------ default-accessibility tracking in FortranContainer.__init__
 def _tracking_block(fn):
     """the first two branches (CONTAINS, bare access statement) of the dispatch chain, cut off from the rest of the chain"""
